@@ -1,6 +1,167 @@
 import RV.Json
+import RV.Drv.Fault
+import RV.Drv.Traffic
+import RV.Drv.TRSM
+import RV.Drv.RolloutSM
+import RV.Model.TRBind
+import RV.Oracle.TRBind
+import RV.Oracle.RolloutSM
 namespace RV.Drv.TRBind
-open Lean RV
-/-- stub: replaced by the slice that owns this suite -/
-def handle : Handler := fun _ _ _ => .error "suite not built yet"
+open Lean RV RV.Traffic RV.TRBind RV.Oracle.TRBind RV.Drv.Traffic
+
+def troOfJson (j : Json) : R TRO := do
+  return { deleting := ← fBool j "deleting", hasFinalizer := ← fBool j "hasFinalizer",
+           holders := ← (← fArrD j "holders").mapM jnat, phase := RV.Drv.TRSM.phaseOf (← fStr j "phase"),
+           weight := ← fOptNat j "weight", grace := ← fNat j "grace", hasRef := ← fBool j "hasRef" }
+def troToJson (t : TRO) : Json :=
+  mkObj [("deleting", boolJ t.deleting), ("hasFinalizer", boolJ t.hasFinalizer), ("holders", arrJ (t.holders.map natJ)),
+    ("phase", strJ (RV.Drv.TRSM.phaseStr t.phase)), ("weight", optJ natJ t.weight), ("grace", natJ t.grace), ("hasRef", boolJ t.hasRef)]
+
+def optTR (j : Json) (k : String) : R (Option TRO) :=
+  match jopt j k with
+  | none => pure none
+  | some x => do pure (some (← troOfJson x))
+
+/-- the world of one rollout: its `net` / `mem` are the joint state's -/
+def wOfJson (j : Json) : R RolloutSM.World := do
+  let wl ← (match jopt j "wl" with | none => pure none | some x => do pure (some (← RV.Drv.RolloutSM.wlOfJson x)))
+  let br ← (match jopt j "br" with | none => pure none | some x => do pure (some (← RV.Drv.RolloutSM.brOfJson x)))
+  return { ro := ← RV.Drv.RolloutSM.roOfJson (← jget j "ro"), wl := wl, br := br, net := default, mem := Mem.empty }
+
+/-- the age of the Progressing condition is shown only while it is read (reason Initializing) -/
+def roToJson (r : RolloutSM.Rollout) : Json :=
+  let j := RV.Drv.RolloutSM.roToJson r
+  if r.reason = .initializing then j.setObjVal! "condAge" (strJ (RV.Drv.RolloutSM.ageStr r.condAge)) else j
+
+def wToJson (w : RolloutSM.World) : Json :=
+  mkObj [("ro", roToJson w.ro), ("wl", optJ RV.Drv.RolloutSM.wlToJson w.wl), ("br", optJ RV.Drv.RolloutSM.brToJson w.br)]
+
+def entryOfJson (j : Json) : R Entry := do
+  return { bound := ← fBool j "bound", gone := ← fBool j "gone", w := ← wOfJson (← jget j "w") }
+def entryToJson (e : Entry) : Json :=
+  mkObj [("bound", boolJ e.bound), ("gone", boolJ e.gone), ("w", wToJson e.w)]
+
+def jsOfJson (j : Json) : R JS := do
+  return { tr := ← optTR j "tr", net := ← netOfJson (← jget j "net"), mem := ← memOfJson (← jget j "mem"),
+           ros := ← (← fArrD j "ros").mapM entryOfJson }
+def jsToJson (s : JS) : Json :=
+  mkObj [("tr", optJ troToJson s.tr), ("net", netToJson s.net), ("mem", memToJson s.mem), ("ros", arrJ (s.ros.map entryToJson))]
+
+def faultOf : String → TFault
+  | "get" => .get | "update" => .update | _ => .none
+
+def labelOfJson (j : Json) : R Label := do
+  let k ← fStr j "k"
+  let i := (jopt j "i").bind (fun x => x.getNat?.toOption) |>.getD 0
+  match k with
+  | "ro" => return .ro i (faultOf ((jopt j "f").bind (fun x => x.getStr?.toOption) |>.getD "none"))
+  | "tr" => return .tr
+  | "tick" => return .tick
+  | "crash" => return .crash
+  | "deleteTR" => return .deleteTR
+  | "createTR" =>
+    let g := (jopt j "grace").bind (fun x => x.getNat?.toOption) |>.getD 0
+    let hr := (jopt j "hasRef").bind (fun x => x.getBool?.toOption) |>.getD false
+    return .createTR (← fOptNat j "weight") g hr
+  | "editStrategy" => return .editStrategy (← fOptNat j "weight")
+  | "deleteRo" => return .deleteRo i
+  | "perturb" =>
+    match jopt j "w" with
+    | some w => return .perturb i (← wOfJson w)
+    | none => return .tick   -- never emitted
+  | "envNet" => return .envNet (← netOfJson (← jget j "net"))
+  | _ => .error s!"trbind: unknown label {k}"
+
+def posStr : Pos → String | .init => "init" | .fin => "fin" | .other => "other"
+
+/-- the extra outputs of the two reconciles -/
+def infoOf (s : JS) (l : Label) : List (String × Json) :=
+  match l with
+  | .ro i f =>
+    (match s.ros[i]? with
+     | some e =>
+       if e.gone then [] else
+       (match roReconcile i e.bound (roWorld s e) s.tr f with
+        | .val r _ => [("requeue", boolJ r.requeue), ("err", boolJ r.err)]
+        | .panic => [])
+     | none => [])
+  | .tr =>
+    (match s.tr with
+     | some t => let r := trReconcile t s.net s.mem
+                 [("requeue", boolJ r.requeue), ("err", boolJ r.err), ("writes", arrJ (r.writes.map strJ))]
+     | none => [])
+  | _ => []
+
+def phaseTag (tr : Option TRO) : String :=
+  match tr with
+  | none => "tr:absent"
+  | some t => s!"tr:{RV.Drv.TRSM.phaseStr t.phase}" ++ (if t.deleting then "+deleting" else "")
+
+def obsOfJson (j : Json) : R Obs := do
+  return { k := ← fStr j "k", tr := ← optTR j "tr", net := ← netOfJson (← jget j "net"),
+           err := (jopt j "err").bind (fun x => x.getBool?.toOption) |>.getD false }
+
+def handle : Handler := fun op inp impl => do
+  match op with
+  | "bstep" =>
+    let pre ← jsOfJson (← jget inp "js")
+    let lj ← jget inp "label"
+    let l ← labelOfJson lj
+    let kind ← fStr lj "k"
+    let src := (jopt inp "src").bind (fun x => x.getStr?.toOption) |>.getD "?"
+    let modelStep := step pre l
+    let model := match modelStep with
+      | none => mkObj [("panic", strJ "?")]
+      | some s' => mkObj (("js", jsToJson s') :: infoOf pre l)
+    let implPanic := (jopt impl "panic").isSome
+    let mut tags := [s!"label:{kind}", s!"src:{src}", phaseTag pre.tr, s!"ros:{pre.ros.length}", s!"holders:{(holdersOf pre.tr).length}"]
+    let mut holds : List (String × Bool) := [("C09.bind_no_panic", !implPanic || modelStep.isNone)]
+    if implPanic then
+      return { model := model, holds := holds, tags := "panic" :: tags }
+    let post ← jsOfJson (← jget impl "js")
+    let ierr := (jopt impl "err").bind (fun x => x.getBool?.toOption) |>.getD false
+    -- every label: the object disappears only in deletion with its last finalizer
+    holds := holds ++ [("C18.bind_held_stays_visible", staysVisible l pre.tr post.tr)]
+    match l with
+    | .tr =>
+      holds := holds ++ [("C03.bind_routes_only_while_held", routesOnlyWhileHeld pre post),
+                         ("C05.bind_held_not_restored", heldNotRestored pre post),
+                         ("C05.bind_finalizing_unheld", finalizingEntryUnheld pre.tr post.tr),
+                         ("C18.bind_tr_finalizer_guard", trFinalizerGuard pre post ((jopt impl "requeue").bind (fun x => x.getBool?.toOption) |>.getD false)),
+                         ("C18.bind_tr_keeps_holders", trKeepsHolders pre.tr post.tr)]
+      tags := tags ++ [if routed pre.net post.net then "tr:routes" else if withdrawn pre.net post.net then "tr:withdraws" else "tr:nogw",
+                       if pre.tr.isNone then "trivial" else "tr:present"]
+    | .ro i f =>
+      match pre.ros[i]?, post.ros[i]? with
+      | some e, some e' =>
+        if e.gone then tags := tags ++ ["trivial", "ro:gone"] else
+        let w := roWorld pre e
+        let pos := position w
+        let reached := faultReached i e.bound w pre.tr f
+        holds := holds ++ [("C03.bind_rollout_waits", leavesInitHeld i e e' pre.tr post.tr && addedOnlyWhenOpen i pre.tr post.tr),
+                           ("C05.bind_others_kept", othersKept i pre.tr post.tr),
+                           ("C05.bind_finalise_finalizer_off", finaliseFinalizerOff i pos e e' post.tr),
+                           ("C05.bind_finalise_waits_for_restore", finaliseWaitsForRestore i pos e e' post.tr),
+                           ("C06.bind_fault_reported", faultReported reached ierr e e' pre.tr post.tr)]
+        tags := tags ++ [s!"pos:{posStr pos}", if e.bound then "bound" else "unbound",
+                         s!"reason:{RV.Drv.RolloutSM.reasonStr e.w.ro.reason}", s!"fault:{(match f with | .none => "none" | .get => "get" | .update => "update")}"] ++
+                        (if reached then ["fault:reached"] else []) ++
+                        (if guardCompletedBeforeRestored pos e e' post.tr then ["guard:completedBeforeRestored"] else []) ++
+                        (if !(holdersOf pre.tr).contains i && (holdersOf post.tr).contains i then ["ro:adds-finalizer"] else []) ++
+                        (if (holdersOf pre.tr).contains i && !(holdersOf post.tr).contains i then ["ro:removes-finalizer"] else []) ++
+                        (if e.bound && initializing e.w.ro && rolling e'.w.ro then ["ro:leaves-init"] else []) ++
+                        (if e.bound && pos == .fin && cleanupMoved e e' then ["ro:cleanup-moves"] else [])
+      | _, _ => tags := tags ++ ["trivial"]
+    | _ => pure ()
+    return { model := model, holds := holds, tags := tags }
+  | "trace" =>
+    let obs ← (← fArrD inp "obs").mapM obsOfJson
+    let released := obs.any fun o => match o.tr with
+      | some t => t.holders.isEmpty && (t.phase == .progressing || t.phase == .finalizing) && !t.deleting | none => false
+    return { model := .null, holds := [("C05.bind_released_means_restored", releasedMeansRestored obs)],
+             tags := ["trace", if released then "trace:released" else "trace:never-released", s!"tracelen:{obs.length / 20 * 20}+"] ++
+                     (if released then [] else ["trivial"]) }
+  | "fault" => RV.Drv.Fault.handleFault ["C03", "C05", "C06", "C09", "C18"] impl
+  | _ => .error s!"trbind: unknown op {op}"
+
 end RV.Drv.TRBind
